@@ -143,7 +143,7 @@ def enc_pairs(pairs):
 
 class C20:
     ID = "C20"
-    N_QUICK = 220
+    N_QUICK = 236
     N_THOROUGH = 2500
     N_SEARCH = 150
     RULE = ("1-D histograms (irregular / gapped bins, zeros, int and float contents, custom errors, name / title / axis name) x "
@@ -168,6 +168,15 @@ class C20:
             "1-D and drawn with the 1-D kinds; the expected marks come from the derived histogram's public bins / frequencies, and "
             "the source histogram is snapshotted too. Marks are read back from the artists (patches, lines, collections, images, texts, title, "
             "labels, ticks), traces and captured stdout; the histogram is snapshotted before and after. "
+            "Every 16th case (k % 16 == 7, stream:grown_collection) plots a HistogramCollection over an ADAPTIVE fixed-width binning "
+            "(multi_h1(..., 'fixed_width', bin_width=w, adaptive=True), create() on an adaptive binning, a collection made of adaptive "
+            "histograms) AFTER some members were filled (fill / fill_n, also with weights), added to (+= of an adaptive histogram over "
+            "another range), merged (merge_bins) or added late, so that the members have different bin counts and ranges; the collection "
+            "is drawn with matplotlib bar / line / scatter / step / fill (density, cumulative, errors, show_values, title) and plotly "
+            "bar / line / scatter (3-5 of them, or all eight), as plot(kind) or plot.kind(): the artists / the trace of member k show "
+            "member k's OWN bins -- as many marks as it has bins, at its edges / centres, with its widths, heights = its frequencies / "
+            "densities / cumulative sums, error bars and value labels at its centres; a refusal of members with unequal bins is "
+            "accepted and counted (the ASCII backend refuses collections: counted); one member is also sent through the model. "
             "non-trivial = non-zero contents; distinct = case hash")
     EXTRA_TRUST = ["matplotlib / plotly rendering, colour-map tables and layout are outside the model",
                    "the ASCII map's colours are read at the call of xtermcolor.colorize (replaced by a recorder while the map is printed)"]
@@ -176,7 +185,9 @@ class C20:
     # ------------------------------------------------------------------ generators
     def gen_case(self, rng, k, tier):
         # two streams take a fixed share of the case indices: helper objects reused across calls, derived histograms as plot inputs
-        kind = "reuse" if k % 8 == 3 else "derived" if k % 8 == 5 else rng.choice(KINDS)
+        # (a third one, every 16th case (k % 16 == 7): collections whose adaptive members grew apart after the collection was made;
+        #  N_QUICK was raised from 220 to 236 with it, so that the older streams keep their number of cases)
+        kind = "reuse" if k % 8 == 3 else "derived" if k % 8 == 5 else "grown" if k % 16 == 7 else rng.choice(KINDS)
         c = getattr(self, "_gen_" + kind)(rng)
         c["tags"] = [t for t in dict.fromkeys(c["tags"])]
         return c
@@ -506,6 +517,74 @@ class C20:
             return {"kind": "data", "dim": 1, "init": init, "flags": flags, "vf": vf, "tags": tags + ["dim:1"]}
         init, axes = rand_nd_op(rng, d=2, names=True)
         return {"kind": "data", "dim": 2, "init": init, "flags": flags, "vf": vf, "tags": tags + ["dim:2"]}
+
+    # ---- collections whose members no longer share one binning: adaptive members filled / added to / merged AFTER the collection
+    #      was made, so that every member has bins (count, range, widths) of its own; every collection plot of every backend
+    GROWN_PLOTS = [["matplotlib", k] for k in ("bar", "line", "scatter", "step", "fill")] + [["plotly", k] for k in ("bar", "line", "scatter")]
+
+    def _gen_grown(self, rng):
+        w = rng.choice([0.25, 0.5, 0.5, 1.0, 1.0, 1.0, 2.0])
+        n0 = rng.randint(2, 5)                      # bins of the original range [lo, hi)
+        lo = rng.randint(-6, 6) * w                 # (a multiple of the width: aligned binnings everywhere)
+        hi = lo + n0 * w
+        build = rng.choice(["multi_h1"] * 3 + ["create"] * 2 + ["from_hists"] * 2)
+        nm = rng.choice([1, 2, 2, 2, 2, 3, 3, 3])
+        dtype = rng.choice([None, None, "float64"]) if build != "multi_h1" else None
+
+        def inside():
+            return lo + rng.randrange(0, 8 * n0) * w / 8
+
+        def outside():
+            d = rng.randint(0, 5) * w
+            if rng.random() < 0.5:
+                return hi + d + rng.randrange(0, 8) * w / 8
+            return lo - d - rng.randrange(1, 9) * w / 8
+
+        def weights(n, p=0.35):
+            if rng.random() > p:
+                return None
+            return [rs(rng.choice([1, 2, 3] if dtype is None else [0.5, 1, 1.5, 2])) for _ in range(n)]
+
+        members = []
+        for i in range(nm):
+            vals = [inside() for _ in range(rng.randint(1, 5))]
+            if build == "create" and rng.random() < 0.25:
+                vals.append(outside())              # (create() fills the new member: its bins may grow at once)
+            members.append({"name": "abc"[i], "values": [rs(v) for v in vals], "weights": weights(len(vals)) if build != "multi_h1" else None})
+        opt = {"density": rng.random() < 0.35, "cumulative": rng.random() < 0.3, "errors": rng.random() < 0.3,
+               "show_values": rng.random() < 0.25, "title": rng.choice([None, "Coll title"]), "title_arg": rng.choice([None, None, "override"])}
+        ops = []
+        for _ in range(rng.choice([0, 1, 1, 2, 2, 3, 4])):
+            m = rng.randrange(nm)
+            what = rng.choice(["fill"] * 4 + ["fill_n"] * 3 + ["iadd"] * 2 + ["merge"] * 2 + ["add_fresh"])
+            first = not ops and rng.random() < 0.6  # (most histories begin with a member growing)
+            if first:
+                what = rng.choice(["fill", "fill", "fill_n", "fill_n", "iadd"])
+            if what == "fill":
+                v = outside() if first or rng.random() < 0.85 else inside()
+                ws = weights(1)
+                ops.append({"op": "fill", "m": m, "value": rs(v), "weight": ws[0] if ws else None})
+            elif what == "fill_n":
+                vals = [outside() if rng.random() < 0.6 or (first and i == 0) else inside() for i in range(rng.randint(1, 4))]
+                ops.append({"op": "fill_n", "m": m, "values": [rs(v) for v in vals], "weights": weights(len(vals))})
+            elif what == "iadd":
+                # += of another adaptive histogram of the same width over another (aligned) range
+                cnt = rng.randint(1, 3)
+                mn = rng.choice([hi + rng.randint(0, 3) * w, lo - (cnt + rng.randint(0, 3)) * w] + ([] if first else [lo]))
+                vals = [mn + rng.randrange(0, 8 * cnt) * w / 8 for _ in range(rng.randint(1, 3))]
+                ops.append({"op": "iadd", "m": m, "min": rs(mn), "count": cnt, "values": [rs(v) for v in vals]})
+            elif what == "merge":
+                ops.append({"op": "merge", "m": m, "amount": rng.randint(2, 3)})
+            else:
+                ops.append({"op": "add_fresh", "values": [rs(inside()) for _ in range(rng.randint(1, 3))]})
+        plots = [list(p) for p in self.GROWN_PLOTS] if rng.random() < 0.5 else [list(p) for p in rng.sample(self.GROWN_PLOTS, rng.randint(3, 5))]
+        plots = [{"backend": b, "plot": p, "call": rng.choice(["plot", "plot", "proxy"])} for b, p in plots]
+        tags = ["grown", "stream:grown_collection", "build:" + build] + ["grow:" + o["op"] for o in ops]
+        tags += ["plot:coll_" + pl["backend"] + "_" + pl["plot"] for pl in plots] + ["opt:" + k for k in ("density", "cumulative", "errors", "show_values") if opt[k]]
+        if not ops:
+            tags.append("grow:none")
+        return {"kind": "grown", "build": build, "w": rs(w), "lo": rs(lo), "count": n0, "dtype": dtype, "members": members, "ops": ops,
+                "plots": plots, "opt": opt, "model_member": rng.randrange(3), "tags": tags}
 
     # ---- helper objects reused across calls: one TimeTickHandler for several histograms in a row
     def _gen_reuse(self, rng):
@@ -1266,6 +1345,131 @@ class C20:
         self._finish(out, hs, snaps, metas, impl1.snap1)
         return {"outs": out, "log": log}
 
+    @staticmethod
+    def _mk_grown(case, log):
+        """the collection of a 'grown' case: made over an adaptive fixed-width binning, then members filled / added to / merged"""
+        from physt.binnings import FixedWidthBinning
+        from physt.histogram1d import Histogram1D
+        from physt.types import HistogramCollection
+        fl = impl1.fl
+        w, lo, n0 = fl(case["w"]), fl(case["lo"]), case["count"]
+        kw = {"dtype": case["dtype"]} if case.get("dtype") else {}
+
+        def binning(mn=lo, cnt=n0):
+            return FixedWidthBinning(bin_width=w, bin_count=cnt, min=mn, adaptive=True)
+
+        def ws(x):
+            return None if x is None else np.array([fl(v) for v in x])
+
+        mem = case["members"]
+        if case["build"] == "multi_h1":
+            coll = HistogramCollection.multi_h1({m["name"]: [fl(v) for v in m["values"]] for m in mem}, "fixed_width", bin_width=w, adaptive=True)
+        elif case["build"] == "create":
+            coll = HistogramCollection(binning=binning())
+            for m in mem:
+                coll.create(m["name"], [fl(v) for v in m["values"]], weights=ws(m.get("weights")), **kw)
+        else:
+            hs = []
+            for m in mem:
+                h = Histogram1D(binning=binning(), name=m["name"], **kw)
+                h.fill_n([fl(v) for v in m["values"]], weights=ws(m.get("weights")))
+                hs.append(h)
+            coll = HistogramCollection(*hs)
+        late = 0
+        for op in case["ops"]:
+            try:
+                if op["op"] == "add_fresh":
+                    h = Histogram1D(binning=coll.binning.copy(), name=f"late{late}", **kw)
+                    late += 1
+                    h.fill_n([fl(v) for v in op["values"]])
+                    coll.add(h)
+                    continue
+                h = coll[op["m"]]
+                if op["op"] == "fill":
+                    if op.get("weight") is None:
+                        h.fill(fl(op["value"]))
+                    else:
+                        wt = fl(op["weight"])
+                        h.fill(fl(op["value"]), weight=int(wt) if wt.is_integer() and not kw else wt)
+                elif op["op"] == "fill_n":
+                    h.fill_n([fl(v) for v in op["values"]], weights=ws(op.get("weights")))
+                elif op["op"] == "iadd":
+                    other = Histogram1D(binning=binning(fl(op["min"]), op["count"]), **kw)
+                    other.fill_n([fl(v) for v in op["values"]])
+                    h += other
+                elif op["op"] == "merge":
+                    h.merge_bins(op["amount"], inplace=True)
+            except Exception as e:
+                log.append(f"op refused: {op['op']}: {type(e).__name__}: {e}"[:160])
+        return coll
+
+    def _run_grown(self, case):
+        import matplotlib.pyplot as plt
+        log = []
+        opt = case["opt"]
+        out = {"refused": {}, "plots": []}
+        try:
+            coll = self._mk_grown(case, log)
+            hs = list(coll)
+            if opt["title"]:
+                coll.title = opt["title"]
+            snaps, metas = [impl1.snap1(h) for h in hs], [dict(h.meta_data) for h in hs]
+            cb = [[rs(l), rs(r)] for l, r in np.asarray(coll.binning.bins).reshape(-1, 2)]
+        except Exception as e:
+            # (making the collection is not this property's business: the case is counted and left out)
+            return {"outs": {"refused": {}, "plots": [], "setup_error": f"{type(e).__name__}: {e}"[:200], "unchanged": True,
+                             "snap": {"freq": [], "bins": []}, "op_log": log}, "log": log}
+        out["names"] = [str(h.name) for h in hs]
+        for pl in case["plots"]:
+            r = {"backend": pl["backend"], "plot": pl["plot"]}
+            p = pl["plot"]
+            try:
+                kw = {"density": opt["density"], "cumulative": opt["cumulative"]}
+                if pl["backend"] == "plotly":
+                    fig = self._call(coll, pl["call"], p, "plotly", kw)
+                    r["traces"] = [{"type": tr.type, "x": [nrs(x) for x in tr.x], "y": [nrs(y) for y in tr.y],
+                                    "width": [nrs(x) for x in tr.width] if getattr(tr, "width", None) is not None else None,
+                                    "mode": getattr(tr, "mode", None), "name": tr.name} for tr in fig.data]
+                else:
+                    if opt["errors"] and not opt["cumulative"] and p in ("bar", "line", "scatter"):
+                        kw["errors"] = True
+                    if opt["show_values"] and p != "fill":
+                        kw["show_values"] = True
+                    if opt["title_arg"]:
+                        kw["title"] = opt["title_arg"]
+                    ax = self._call(coll, pl["call"], p, "matplotlib", kw)
+                    r["title"] = ax.get_title()
+                    r["patches"] = [[nrs(q.get_x()), nrs(q.get_width()), nrs(q.get_height())] for q in ax.patches]
+                    r["lines"] = [[[nrs(x) for x in l.get_xdata()], [nrs(y) for y in l.get_ydata()]] for l in ax.lines]
+                    r["points"], r["errsegs"], r["polys"] = [], [], []
+                    for c in ax.collections:
+                        tn = type(c).__name__
+                        if tn == "PathCollection":
+                            r["points"].append([[nrs(a), nrs(b)] for a, b in c.get_offsets()])
+                        elif tn == "LineCollection":
+                            r["errsegs"].append([[[nrs(a), nrs(b)] for a, b in sg] for sg in c.get_segments()])
+                        elif tn in ("PolyCollection", "FillBetweenPolyCollection"):
+                            r["polys"].append([[[nrs(a), nrs(b)] for a, b in q.vertices] for q in c.get_paths()])
+                    r["texts"] = self._texts(ax)
+            except Exception as e:
+                r["plot_error"] = f"{type(e).__name__}: {e}"[:200]
+            plt.close("all")
+            out["plots"].append(r)
+        # the ASCII backend has one 1-D kind: does it take a collection?  (counted only)
+        buf = _io.StringIO()
+        try:
+            with contextlib.redirect_stdout(buf):
+                coll.plot("hbar", backend="ascii")
+            out["ascii"] = "accepted"
+        except Exception:
+            out["ascii"] = "REFUSED"
+        out["ascii_lines"] = len(buf.getvalue().splitlines())
+        out["op_log"] = list(log)
+        out["members_now"] = len(coll) == len(hs) and all(a is b for a, b in zip(coll, hs))
+        out["coll_binning_unchanged"] = cb == [[rs(l), rs(r)] for l, r in np.asarray(coll.binning.bins).reshape(-1, 2)]
+        self._finish(out, hs, snaps, metas, impl1.snap1)
+        return {"outs": out, "log": log}
+
     def _run_backend(self, case):
         import matplotlib.pyplot as plt
         import physt.plotting as pp
@@ -1366,6 +1570,17 @@ class C20:
                 return None
             w = case["unit"][1] * SECONDS[case["unit"][0]]
             return {"kind": "plot", "what": "ticks", "lo": rs(case["lo"]), "hi": rs(case["hi"]), "w": rs(w)}
+        if case["kind"] == "grown":
+            # one member (with the bins it has now) goes through the model's plot data; diff() compares its artists / trace
+            opt = case["opt"]
+            if "setup_error" in o or (opt["density"] and opt["cumulative"]):
+                return None
+            snaps = o.get("snaps") or [o["snap"]]
+            s = snaps[case["model_member"] % len(snaps)]
+            if any(x in (None, "inf", "-inf") for x in s["freq"] + s["err2"]):
+                return None
+            return {"kind": "plot", "what": "marks1d", "bins": s["bins"], "freq": s["freq"], "err2": s["err2"],
+                    "density": opt["density"], "cumulative": opt["cumulative"]}
         if "plot_error" in o or case["kind"] not in ("mpl1", "plotly1", "ascii", "mpl2"):
             return None
         opt = case["opt"]
@@ -1393,6 +1608,35 @@ class C20:
             return d
         opt = case["opt"]
         tol = lambda a, b: abs(Fraction(a) - Fraction(b)) <= Fraction(1, 10**9) * max(abs(Fraction(a)), abs(Fraction(b)), Fraction(1, 10**9))
+        if case["kind"] == "grown":
+            snaps = o.get("snaps") or [o["snap"]]
+            k = case["model_member"] % len(snaps)
+            a0 = sum(len(s["freq"]) for s in snaps[:k])
+            n = len(snaps[k]["freq"])
+            pts_same = lambda want, got: len(want) == len(got) and all(tol(a[0], b[0]) and tol(a[1], b[1]) for a, b in zip(want, got))
+            for r in o["plots"]:
+                if "plot_error" in r:
+                    continue
+                p, what = r["plot"], f"{r['backend']} {r['plot']} of the collection, member {k}: "
+                if r["backend"] == "plotly":
+                    tr = r["traces"][k] if k < len(r["traces"]) else {"x": [], "y": [], "width": None}
+                    if None in tr["x"] or None in tr["y"] or not pts_same(m["centres"], list(zip(tr["x"], tr["y"]))):
+                        d.append(what + f"trace differs: model={m['centres'][:3]} impl x={tr['x'][:3]} y={tr['y'][:3]}")
+                    elif p == "bar" and (tr["width"] is None or len(tr["width"]) != n or any(not tol(a[1], b) for a, b in zip(m["bars"], tr["width"]))):
+                        d.append(what + "bar widths differ")
+                elif p == "bar":
+                    got = r["patches"][a0:a0 + n]
+                    if len(got) != n or any(not all(tol(a[i], b[i]) for i in range(3)) for a, b in zip(m["bars"], got)):
+                        d.append(what + f"bars: model={m['bars'][:3]} impl={got[:3]}")
+                elif p in ("line", "step"):
+                    got = r["lines"][k] if k < len(r["lines"]) else [[], []]
+                    if not pts_same(m["centres"] if p == "line" else m["step"], list(zip(got[0], got[1]))):
+                        d.append(what + f"{p} differs")
+                elif p == "scatter":
+                    got = r["points"][k] if k < len(r["points"]) else []
+                    if not pts_same(m["centres"], got):
+                        d.append(what + "scatter points differ")
+            return d
         if case["kind"] == "mpl1":
             p = o.get("default_kind", opt["plot"])
             if p == "bar":
@@ -1881,6 +2125,90 @@ class C20:
             if want and o["title"] != want:
                 fails.append(f"title: collection plot title {o['title']!r}, expected {want!r}")
 
+    def _or_grown(self, case, o, fails):
+        """a collection whose members have bins of their own: every member is drawn with ITS bins"""
+        if "setup_error" in o:
+            return
+        opt = case["opt"]
+        snaps = o.get("snaps") or [o["snap"]]
+        if any(not s["_shape_ok"] for s in snaps):
+            return      # (a member left inconsistent by a refused operation: not a histogram any more)
+        names = o["names"]
+        counts = [len(s["freq"]) for s in snaps]
+        starts = [sum(counts[:k]) for k in range(len(counts))]
+        unequal = any(s["bins"] != snaps[0]["bins"] for s in snaps)
+        if not o["coll_binning_unchanged"] or not o["members_now"]:
+            fails.append("histogram_modified: plotting changed the collection (its own binning / its list of members)")
+        pts_ok = lambda gx, gy, ex, ey: (len(gx) == len(gy) == len(ex) and None not in gx and None not in gy
+                                         and all(close(ff(a), b) for a, b in zip(gx, ex)) and all(close(ff(a), b) for a, b in zip(gy, ey)))
+        fv = lambda xs: [None if x is None else ff(x) for x in xs]
+        for r in o["plots"]:
+            p = r["plot"]
+            head = (f"{r['backend']} {p} of a collection of {len(snaps)} histograms with {counts} bins"
+                    f"{' (density)' if opt['density'] else ''}{' (cumulative)' if opt['cumulative'] else ''}: ")
+            if "plot_error" in r:
+                if not unequal:
+                    fails.append("plot_raises: " + head + r["plot_error"])
+                continue        # (refusing members with unequal bins is fine: counted in the tags)
+            n_marks = len(r["traces"]) if r["backend"] == "plotly" else (
+                len(r["patches"]) if p == "bar" else len(r["lines"]) if p in ("line", "step") else len(r["points"]) if p == "scatter" else len(r["polys"]))
+            n_want = sum(counts) if (r["backend"], p) == ("matplotlib", "bar") else len(snaps)
+            if n_marks != n_want:
+                fails.append(f"collection_marks: {head}{n_marks} {'bars' if n_want != len(snaps) else 'traces / artists'} drawn, expected {n_want} "
+                             f"(one per {'bin of every member' if n_want != len(snaps) else 'member'})")
+                continue
+            for k, s in enumerate(snaps):
+                bins, f, e2, sizes, centres, data = self._data1(s, opt["density"], opt["cumulative"])
+                what = f"{head}member {k} ({names[k]!r}, {counts[k]} bins over [{bins[0][0]}, {bins[-1][1]}]): "
+                a0, n = starts[k], counts[k]
+                if r["backend"] == "plotly":
+                    tr = r["traces"][k]
+                    if not pts_ok(tr["x"], tr["y"], centres, data):
+                        fails.append(f"plotly_marks: {what}{len(tr['y'])} values {fv(tr['y'])[:6]} are drawn at the {len(tr['x'])} positions "
+                                     f"x={fv(tr['x'])[:6]}; its {n} bin centres are {centres[:6]} and its values {data[:6]}")
+                    elif p == "bar" and (tr["width"] is None or len(tr["width"]) != n or any(not close(ff(a), b) for a, b in zip(tr["width"], sizes))):
+                        fails.append(f"plotly_widths: {what}bar widths {fv(tr['width'] or [])[:6]}, its bin widths are {sizes[:6]}")
+                elif p == "bar":
+                    self._or_marks1("bar", opt, r, s, fails, patches=r["patches"][a0:a0 + n], what=what)
+                elif p in ("line", "step"):
+                    self._or_marks1(p, opt, r, s, fails, line=r["lines"][k], what=what)
+                elif p == "scatter":
+                    self._or_marks1("scatter", opt, r, s, fails, pts=r["points"][k], what=what)
+                else:
+                    verts = {(round(ff(a), 9), round(ff(b), 9)) for q in r["polys"][k] for a, b in q}
+                    if any((round(c, 9), round(d, 9)) not in verts for c, d in zip(centres, data)):
+                        fails.append(f"fill_marks: {what}the filled area does not pass through (bin centre, value)")
+                if fails:
+                    break
+                if r["backend"] == "matplotlib" and opt["errors"] and not opt["cumulative"] and p in ("bar", "line", "scatter"):
+                    err = [math.sqrt(x) / (sz if opt["density"] else 1) for x, sz in zip(e2, sizes)]
+                    segs = r["errsegs"][k] if k < len(r["errsegs"]) else []
+                    ok = len(segs) == n and len(r["errsegs"]) == len(snaps)
+                    for sg, c, dv, er in zip(segs, centres, data, err):
+                        (x0, y0), (x1, y1) = [(ff(a), ff(b)) for a, b in sg]
+                        etol = 1e-6 * max(abs(dv), er, 1e-12)
+                        ok = ok and close(x0, c, 1e-7) and close(x1, c, 1e-7) and abs(min(y0, y1) - (dv - er)) <= etol and abs(max(y0, y1) - (dv + er)) <= etol
+                    if not ok:
+                        fails.append(f"error_bars: {what}{len(segs)} error bars; expected one per bin at its centres {centres[:5]} spanning value "
+                                     f"± sqrt(errors2){'/size' if opt['density'] else ''} = ± {err[:5]}")
+                        break
+                if r["backend"] == "matplotlib" and opt["show_values"] and p != "fill":
+                    tx = [(ff(t[0]), ff(t[1]), t[2]) for t in r["texts"] if len(t) < 4 or t[3]]
+                    mine = tx[a0:a0 + n]
+                    if len(tx) != sum(counts) or any(not (close(a[0], c) and close(a[1], dv)) for a, c, dv in zip(mine, centres, data)):
+                        fails.append(f"value_labels: {what}{len(tx)} value labels for {sum(counts)} bins, or not at (its bin centre, value)")
+                        break
+                    bad = [(a[2], dv) for a, dv in zip(mine, data) if not label_ok(a[2], None, dv)]
+                    if bad:
+                        fails.append(f"value_format: {what}label {bad[0][0]!r} for the value {bad[0][1]!r}")
+                        break
+            if fails:
+                break
+            if r["backend"] == "matplotlib":
+                want = opt["title_arg"] or opt["title"]
+                if want and r["title"] != want:
+                    fails.append(f"title: {head}plot title {r['title']!r}, expected {want!r}")
+
     def _or_backend(self, case, o, fails):
         name = case["name"]
         if o.get("after_set") != name:
@@ -2026,6 +2354,8 @@ class C20:
             self._or_data(case, o, fails)
         elif kind == "reuse":
             self._or_reuse(case, o, fails)
+        elif kind == "grown":
+            self._or_grown(case, o, fails)
         # failures with the signature of a recorded open finding go last: the first failure names the case
         known = [x for x in fails if x.split(":")[0] in self.OPEN_SIGNATURES]
         return ([x for x in fails if x not in known] + known)[:6]
@@ -2044,6 +2374,21 @@ class C20:
             t.append("level_refused:" + o["refused"])
         if "default_kind" in o:
             t.append("default_kind:" + str(o["default_kind"]))
+        if case["kind"] == "grown":
+            if "setup_error" in o:
+                return t + ["stream:grown_collection:setup_refused"]
+            snaps = o.get("snaps") or [o["snap"]]
+            unequal = any(s["bins"] != snaps[0]["bins"] for s in snaps)
+            t.append("stream:grown_collection:" + ("unequal_bins" if unequal else "one_member" if len(snaps) == 1 else "equal_bins"))
+            if len({len(s["freq"]) for s in snaps}) > 1:
+                t.append("stream:grown_collection:different_bin_counts")
+            if any(pl["backend"] == "plotly" for pl in case["plots"]) and unequal:
+                t.append("stream:grown_collection:unequal_bins_plotly")
+            t += ["grown:members_%d" % len(snaps), "grown:ascii_" + o["ascii"].lower()]
+            if o["op_log"]:
+                t.append("stream:grown_collection:op_refused")
+            if any("plot_error" in r for r in o["plots"]):
+                t.append("stream:grown_collection:plot_refused")
         if o.get("derive_log"):
             t.append("derive:refused")
         return t
@@ -2066,6 +2411,33 @@ class C20:
                     del c["steps"][i]
                     out.append(c)
             return out
+        if case["kind"] == "grown":
+            # one plot, one operation, one member, one value less; the options are switched off below
+            for i in range(len(case["plots"])):
+                if len(case["plots"]) > 1:
+                    c = copy.deepcopy(case); del c["plots"][i]; out.append(c)
+            for i in range(len(case["ops"])):
+                c = copy.deepcopy(case); del c["ops"][i]; out.append(c)
+            for i in range(len(case["members"])):
+                if len(case["members"]) > 1:
+                    c = copy.deepcopy(case)
+                    del c["members"][i]
+                    c["ops"] = [dict(op, m=op["m"] - (op["m"] > i)) if "m" in op else op for op in c["ops"] if op.get("m") != i]
+                    out.append(c)
+            for i, mb in enumerate(case["members"]):
+                if len(mb["values"]) > 1:
+                    c = copy.deepcopy(case)
+                    del c["members"][i]["values"][-1]
+                    if c["members"][i].get("weights"):
+                        del c["members"][i]["weights"][-1]
+                    out.append(c)
+            for i, op in enumerate(case["ops"]):
+                if len(op.get("values") or []) > 1:
+                    c = copy.deepcopy(case)
+                    del c["ops"][i]["values"][-1]
+                    if c["ops"][i].get("weights"):
+                        del c["ops"][i]["weights"][-1]
+                    out.append(c)
         spec = case.get("from2d") or case
         if spec.get("derive") or spec.get("layout") not in (None, "C"):
             # drop one derivation at a time (a final projection / selection stays), then the memory layout
